@@ -319,6 +319,9 @@ type ValCall struct {
 	Result datatransfer.ValidationResult
 	Err    error
 	Life   int
+	// the channel state the validator was handed (restart validations)
+	Pre   Snap
+	PreOK bool
 }
 
 type Validator struct {
@@ -347,9 +350,10 @@ func (v *Validator) ValidatePull(chid datatransfer.ChannelID, receiver peer.ID, 
 	return res, err
 }
 func (v *Validator) ValidateRestart(chid datatransfer.ChannelID, st datatransfer.ChannelState) (datatransfer.ValidationResult, error) {
-	TakeSnap(v.n.r, "ValidateRestart", st)
+	pre := TakeSnap(v.n.r, "ValidateRestart", st)
 	res, err := v.Rest(chid, st)
 	v.record("restart", chid, res, err)
+	v.n.ValCalls[len(v.n.ValCalls)-1].Pre, v.n.ValCalls[len(v.n.ValCalls)-1].PreOK = pre, true
 	return res, err
 }
 
